@@ -2,6 +2,7 @@
 // build() turns it into real rtosc::Ports whose callbacks record what they were given. Sub-tree
 // callbacks do exactly what the library's rRecurCb does (set d.obj, SNIP one component, dispatch child).
 #pragma once
+#include <cstring>
 #include <memory>
 #include <string>
 #include <vector>
@@ -20,6 +21,7 @@ struct PortDesc {
 struct Node {
     std::vector<PortDesc> ports;
     bool default_handler = false;
+    bool fat_callbacks = false;       // leaf callbacks capture 40 bytes: their closure does not fit std::function's in-place storage
     int id = -1;
     char obj_tag = 0;                 // &obj_tag is the runtime object handed to this table's callbacks
     std::unique_ptr<rtosc::Ports> built;
@@ -77,6 +79,10 @@ inline void build(Node &n, int &next_port, int &next_node)
                     ch->built->dispatch(msg, d);
                 }});
         } else {
+            if(n.fat_callbacks) {
+                struct Fat { int id; char pad[36]; } fat; memset(&fat, 0, sizeof fat); fat.id = id;
+                v.push_back(rtosc::Port{p.name.c_str(), "", nullptr, [fat](const char *msg, rtosc::RtData &d) { note(LEAF, fat.id + fat.pad[7], msg, d); }});
+            } else
             v.push_back(rtosc::Port{p.name.c_str(), "", nullptr, [id](const char *msg, rtosc::RtData &d) { note(LEAF, id, msg, d); }});
         }
     }
